@@ -310,3 +310,21 @@ HARMLESS += [
   "old": "                    i1 = wicks(i1, simplify_kronecker_deltas=True)\n                    projection += (prefactor * state * i1).expand()",
   "new": "                    i1 = wicks(i1, simplify_kronecker_deltas=True)\n                    if i1 is S.Zero:\n                        continue\n                    projection += (prefactor * state * i1).expand()"},
 ]
+
+MUTANTS += [
+ {"id": "c09-ed-kill-target", "prop": "C09", "file": "adcgen/func.py",
+  "old": "            if killable not in target_idx:\n                expr = expr.subs(killable, preferred)",
+  "new": "            if killable not in target_idx or preferred in target_idx:\n                expr = expr.subs(killable, preferred)"},
+ {"id": "c09-ed-no-equal-information", "prop": "C09", "file": "adcgen/func.py",
+  "old": "            elif preferred not in target_idx \\\n                    and d.indices_contain_equal_information:",
+  "new": "            elif preferred not in target_idx:"},
+ {"id": "c09-ed-subs-direction", "prop": "C09", "file": "adcgen/func.py",
+  "old": "            if killable not in target_idx:\n                expr = expr.subs(killable, preferred)",
+  "new": "            if killable not in target_idx:\n                expr = expr.subs(preferred, killable)"},
+ {"id": "c09-ed-targets-twice", "prop": "C09", "file": "adcgen/func.py",
+  "old": "            target_idx = [s for s, n in indices.items() if not n]",
+  "new": "            target_idx = [s for s, n in indices.items() if n > 1]"},
+ {"id": "c09-ed-recursion-targets", "prop": "C09", "file": "adcgen/func.py",
+  "old": "                expr = expr.subs(killable, preferred)\n                if len(deltas) > 1:\n                    return evaluate_deltas(expr, target_idx)",
+  "new": "                expr = expr.subs(killable, preferred)\n                if len(deltas) > 1:\n                    return evaluate_deltas(expr)"},
+]
